@@ -296,10 +296,19 @@ def dim_floor(repo: Repo) -> List[Ob]:
             continue
         n += 1
         good = False
+        est = {src(x.targets[0]) for b in arm.body for x in [b] + list(walk_no_nested(b))
+               if isinstance(x, ast.Assign) and isinstance(x.value, ast.Call) and method_call(x.value) and method_call(x.value)[1] == "compute_dimensions"}
         for i in [x for b in arm.body for x in [b] + list(walk_no_nested(b)) if isinstance(x, ast.If)]:
-            t = src(i.test).replace(" ", "")
-            if t in ("cd<num_quanta+1", "cd<=num_quanta", "num_quanta+1>cd", "num_quanta>=cd"):
-                if any(isinstance(s, ast.Assign) and src(s.targets[0]) == "cd" and src(s.value).replace(" ", "") == "num_quanta+1" for s in i.body):
+            t = i.test
+            if isinstance(t, ast.Compare) and len(t.ops) == 1:
+                l, r = src(t.left).replace(" ", ""), src(t.comparators[0]).replace(" ", "")
+                op = type(t.ops[0])
+                var = None
+                if l in est and ((op is ast.Lt and r == "num_quanta+1") or (op is ast.LtE and r == "num_quanta")):
+                    var = l
+                if r in est and ((op is ast.Gt and l == "num_quanta+1") or (op is ast.GtE and l == "num_quanta")):
+                    var = r
+                if var and any(isinstance(st, ast.Assign) and src(st.targets[0]) == var and src(st.value).replace(" ", "") == "num_quanta+1" for st in i.body):
                     good = True
         for b in arm.body:
             if isinstance(b, ast.Return) and "max(" in src(b.value) and "num_quanta + 1" in src(b.value):
